@@ -3,7 +3,7 @@
 EXTENDS LibGraph, Json, IOUtils
 
 MCCells == {"c1", "c2", "c3", "c4", "c5"}
-MCRaws == {"r1", "r2", "r3"}
+MCRaws == {"r1", "r2", "r3", "r4"}
 MCNewNames == {"m1", "m2"}
 Tags == {"t1", "t2", "t3"}
 MCTagMaps == {[id |-> "swap12", f |-> [t1 |-> "t2", t2 |-> "t1", t3 |-> "t3"]],
@@ -12,7 +12,7 @@ MCTagMaps == {[id |-> "swap12", f |-> [t1 |-> "t2", t2 |-> "t1", t3 |-> "t3"]],
 \* c1 is the top cell; c3 is a shared sub-cell; c4 is a replacement candidate carrying c1's
 \* name; r3 is a raw cell from a second file carrying r1's name.
 InitName == [c1 |-> "n1", c2 |-> "n2", c3 |-> "n3", c4 |-> "n1", c5 |-> "n5",
-             r1 |-> "q1", r2 |-> "q2", r3 |-> "q1"]
+             r1 |-> "q1", r2 |-> "q2", r3 |-> "q1", r4 |-> "q4"]
 InitRefs == [c1 |-> <<Ref("cell", "c2"), Ref("cell", "c3"), Ref("name", "n3"),
                       Ref("raw", "r1"), Ref("name", "zz")>>,
              c2 |-> <<Ref("cell", "c3"), Ref("name", "q2"), Ref("raw", "r2")>>,
@@ -22,8 +22,9 @@ InitRefs == [c1 |-> <<Ref("cell", "c2"), Ref("cell", "c3"), Ref("name", "n3"),
 InitShapes == [c1 |-> <<"t1", "t2">>, c2 |-> <<"t2">>, c3 |-> <<"t3">>, c4 |-> <<"t1">>,
                c5 |-> <<>>]
 InitLabels == [c1 |-> <<"t1">>, c2 |-> <<>>, c3 |-> <<"t3">>, c4 |-> <<"t2">>, c5 |-> <<>>]
-InitRawDeps == [r1 |-> {"r2"}, r2 |-> {}, r3 |-> {}]
-RawFile == [r1 |-> 1, r2 |-> 1, r3 |-> 2]
+\* a chain of three raw cells (r1 -> r2 -> r4): recursive dependencies are more than direct ones
+InitRawDeps == [r1 |-> {"r2"}, r2 |-> {"r4"}, r3 |-> {}, r4 |-> {}]
+RawFile == [r1 |-> 1, r2 |-> 1, r3 |-> 2, r4 |-> 1]
 \* Shape 1: three member cells, two raw cells.  Shape 2: more raw cells than cells (a raw cell's
 \* position in the raw-cell list is not a position in the cell list).
 CONSTANT Shape
